@@ -65,25 +65,32 @@ def scan_module(path):
                 for t in TAG_RE.findall(_fn_body(src, cm.start())):
                     tags.update(x.strip() for x in t.split(','))
         bm = re.search(r'BOUNDED[^\n]*', d['pre'] + d['body'])
+        any_unwind = 'kani::unwind(' in d['body'] or 'kani::unwind(' in d['pre'][-200:] or d['unwind']
+        # the invocation line of a macro-stamped harness carries its bounds: `c05!(name, Type, N, unwind)`
+        inv = re.search(r'^\s*\w+!\s*\(\s*%s\s*,([^\n]*)\)' % re.escape(name), src, re.M)
         props = sorted(set(([default] if default else []) + list(tags)))
+        bounded = bm.group(0).strip() if bm else None
+        if bounded is None and any_unwind:
+            bounded = 'unwind %s' % (d['unwind'] if d['unwind'] else 'bound given per invocation')
+        if bounded and inv:
+            bounded += ' [%s]' % inv.group(1).strip()
         out['%s::%s' % (mod, name)] = dict(name='%s::%s' % (mod, name), default_prop=default, props=props,
-                                          unwind=d['unwind'], bounded=(bm.group(0).strip() if bm else
-                                                                       ('unwind %d' % d['unwind'] if d['unwind'] else None)))
+                                          unwind=d['unwind'], bounded=bounded)
     return out
 
 
 def scan(root):
     res = {}
     d = os.path.join(root, 'kani', 'src')
-    for f in sorted(os.listdir(d)):
-        if re.match(r'c\d\d_\w+\.rs$', f):
-            res.update(scan_module(os.path.join(d, f)))
     ov = {}
     p = os.path.join(root, 'contracts', 'harnesses.json')
     if os.path.exists(p):
         ov = json.load(open(p))
+    for f in sorted(os.listdir(d)):
+        if re.match(r'c\d\d_\w+\.rs$', f) and f[:-3] not in ov.get('_skip_modules', []):
+            res.update(scan_module(os.path.join(d, f)))
     for name, o in ov.items():
-        if name in res:
+        if name in res and isinstance(o, dict):
             if o.get('props_add'):
                 res[name]['props'] = sorted(set(res[name]['props']) | set(o['props_add']))
             if o.get('props_only'):
